@@ -773,6 +773,48 @@ def run_lifecycle(host, entries, plan, install, set_config, uninstall, before=No
     return out
 
 
+class Gate:
+    """parks one worker thread, once, inside the handler's matching of an event of a given source file: the location
+    of one installed trigger is a LineLocation subclass whose `path` property calls `maybe_park`."""
+
+    def __init__(self, host, worker, file):
+        self.host, self.worker, self.file = host, worker, file
+        self.armed = False
+        self.parked = threading.Event()
+        self.release = threading.Event()
+        self.at = None
+        self.timed_out = False
+
+    def maybe_park(self):
+        if not self.armed or getattr(self.host.tl, 'name', None) != self.worker:
+            return
+        f = host_frame(self.host)
+        if f is None or os.path.basename(f.f_code.co_filename) != self.file:
+            return
+        self.armed = False
+        self.at = {'path': f.f_code.co_filename, 'line': f.f_lineno, 'func': f.f_code.co_name, 'lasti': f.f_lasti,
+                   'token': Obs.token(f)}
+        self.parked.set()
+        if not self.release.wait(60):
+            self.timed_out = True
+
+
+def gated_trigger(trigger, gate):
+    """the same trigger (same actions), its line location replaced by one whose `path` reports to the gate"""
+    from deep.api.tracepoint.trigger import LineLocation, Trigger
+
+    class GatedLine(LineLocation):
+        @property
+        def path(self):
+            gate.maybe_park()
+            return LineLocation.path.fget(self)
+
+    loc = trigger._Trigger__location
+    if not isinstance(loc, LineLocation):
+        return None
+    return Trigger(GatedLine(loc.path, loc.line, loc.position), trigger._Trigger__actions)
+
+
 def on_helper_thread(fn):
     """run fn on a short-lived thread (TriggerHandler.start/shutdown call sys.settrace for the CALLING thread: the
     harness's own thread must not be traced by the agent)."""
@@ -1108,7 +1150,55 @@ def run_case(case, hooks=False):
             elif what == 'empty':
                 h.new_config([])     # a poll that delivers no tracepoints
         host.hook_fn = change_config
-        if case.get('lifecycle'):
+        if case.get('gated'):
+            # a config update that lands while thread T0 is inside the matching of its first event of a file
+            g = case['gated']
+            gate = Gate(host, 'T0', g['file'])
+            old = build_config([tp for tp in case['tps'] if tp['id'] in g['old']])
+            new = build_config([tp for tp in case['tps'] if tp['id'] in g['new']])
+            for i, t in enumerate(old):
+                gt = gated_trigger(t, gate) if t.path == g['file'] else None
+                if gt is not None:
+                    old[i] = gt
+                    break
+            r.handler.new_config(old)
+            gate.armed = True
+            t0_done = threading.Event()
+            swapped = threading.Event()
+
+            def before_g(name):
+                if before:
+                    before(name)
+                if name != 'T0':
+                    swapped.wait(60)
+
+            def after_g(name):
+                if after:
+                    after(name)
+                if name == 'T0':
+                    t0_done.set()
+            box = {}
+
+            def drive():
+                try:
+                    box['out'] = run_program(host, entries, 'sys', r.handler.trace_call, before=before_g, after=after_g)
+                except BaseException as e:  # noqa: B902
+                    box['err'] = e
+            helper = threading.Thread(target=drive, name='driver')
+            helper.start()
+            for _ in range(600):
+                if gate.parked.is_set() or t0_done.is_set() or not helper.is_alive():
+                    break
+                gate.parked.wait(0.1)
+            r.handler.new_config(new)          # the update is complete when this returns
+            swapped.set()
+            gate.release.set()
+            helper.join(120)
+            if helper.is_alive() or 'err' in box or gate.timed_out:
+                raise core.Infra('gated run did not finish: %s' % box.get('err'))
+            out = box['out']
+            out['gate'] = gate.at
+        elif case.get('lifecycle'):
             # the real installation: TriggerHandler.start() (sys.settrace + threading.settrace), config updates through
             # TriggerHandler.new_config, TriggerHandler.shutdown() restores the hooks
             out = run_lifecycle(host, entries, lifecycle_plan(case),
@@ -1128,6 +1218,12 @@ def run_case(case, hooks=False):
                'idents': [out['idents'].get('T%d' % i) for i in range(len(entries))]}
         if 'hook_after' in out:
             res['hook_restored'] = out['hook_after']
+        if case.get('gated'):
+            ga = out.get('gate')
+            if ga:
+                ga = dict(ga)
+                ga['path'] = '/host/' + os.path.relpath(ga['path'], host.dir)
+            res['gate'] = ga
         if hooks:
             res.update(state)
         return res
@@ -1156,7 +1252,7 @@ def lifecycle_requests(case, obs):
     return {'op': 'batch', 'reqs': reqs}
 
 
-def run_request(case, obs, only=None, thread=None):
+def run_request(case, obs, only=None, thread=None, lo=0, hi=None):
     """the model driver request for a case: tracepoints as (location, actions), the reference streams, the gate
     scripts, and an arbitrary interleaving of the threads for the global machine."""
     if 'raised' in obs:
@@ -1178,7 +1274,7 @@ def run_request(case, obs, only=None, thread=None):
             if tp.get('scripted'):
                 for a in tp_model_actions(i, tp):
                     script.append({'tp': i, 'kind': a['kind'], 'dec': sc.get(tp['id'], [])})
-        th_req = {'events': model_events(obs['ref'].get(t, [])), 'script': script}
+        th_req = {'events': model_events(obs['ref'].get(t, [])[lo:hi]), 'script': script}
         n = emptied_at(case, obs['ref'].get(t, []))
         if n is not None:
             th_req['empty_at'] = n
